@@ -17,7 +17,7 @@ RULE = ('quick: every outline AST with <=4 nodes and nesting <=2 over {step, if/
         'the script prefix actually consumed (exhaustive for that scope); thorough adds 5-node ASTs (sampled) and random ASTs to depth 4 with '
         'scripts to length 12; non-trivial when at least one predicate or >=2 calls were made')
 ASSUMPTIONS = ['predicates return real booleans', 'ToContext returns are C10\'s business', 'interpreter written from the property statement']
-REQUIRED = ['runs', 'ended/return', 'ended/value', 'ended/end', 'nodes/if', 'nodes/while', 'nodes/ret', 'calls_compared', 'falsy_stop_values']
+REQUIRED = ['runs', 'ended/return', 'ended/value', 'ended/end', 'nodes/if', 'nodes/while', 'nodes/ret', 'calls_compared', 'falsy_stop_values', 'steps_registering_awaitables', 'value_with_awaitable']
 EXHAUSTIVE = {'quick': True, 'thorough': False}
 BOUNDS = {'quick': 'ASTs <=4 nodes depth<=2, predicate scripts <=4, exhaustive after de-duplication', 'thorough': '+5-node ASTs sampled, 4000 random ASTs depth<=4'}
 STOPVALS = [0, '', False, 7]
@@ -53,6 +53,9 @@ def gen_cases(tier, seed):
                         continue
                     seen.add(key)
                     yield {'ast': ast, 'preds': p[:np] if np <= len(p) else p, 'rets': r[:ns]}
+                    if how == 'value' or len(seen) % 8 == 0:
+                        # the same run with every step also registering an awaitable through to_context()
+                        yield {'ast': ast, 'preds': p[:np] if np <= len(p) else p, 'rets': r[:ns], 'awaits': True}
     if tier == 'thorough':
         shapes5 = outlines.shapes(5, 2)
         for shape in rng.sample(shapes5, 3000):
@@ -60,13 +63,13 @@ def gen_cases(tier, seed):
             for _ in range(4):
                 p = [rng.random() < 0.6 for _ in range(rng.randint(0, 6))]
                 r = [rng.choice([None] * 10 + STOPVALS + ['r']) for _ in range(rng.randint(0, 6))]
-                yield {'ast': ast, 'preds': p, 'rets': r}
+                yield {'ast': ast, 'preds': p, 'rets': r, 'awaits': rng.random() < 0.3}
         for _ in range(4000):
             ast = outlines.random_ast(rng, rng.randint(1, 4))
             for _k in range(3):
                 p = [rng.random() < 0.55 for _ in range(rng.randint(0, 12))]
                 r = [rng.choice([None] * 12 + STOPVALS + ['r']) for _ in range(rng.randint(0, 12))]
-                yield {'ast': ast, 'preds': p, 'rets': r}
+                yield {'ast': ast, 'preds': p, 'rets': r, 'awaits': rng.random() < 0.3}
 
 
 def run_case(case):
@@ -78,8 +81,11 @@ def run_case(case):
     cls = outlines.outline_class(ast)
     viol = []
     V = judges.V
+    awaits = bool(case.get('awaits'))
+    obs['steps_registering_awaitables'] = int(awaits and any(t.startswith('s') for t in exp_trace))
+    obs['value_with_awaitable'] = int(awaits and how == 'value')
     with Driver(5000) as drv:
-        wc = cls(inputs={'preds': list(preds), 'rets': list(rets)}, loop=drv.loop)
+        wc = cls(inputs={'preds': list(preds), 'rets': list(rets), 'awaits': awaits}, loop=drv.loop)
         task = drv.loop.create_task(wc.step_until_terminated())
         incon = None
         try:
@@ -110,7 +116,7 @@ def run_case(case):
     elif not task_done:
         viol.append(V('task', 'task-pending', 'stepping task not done'))
     res = {'viol': viol, 'obs': obs, 'inconclusive': incon, 'key': case, 'nontrivial': len(exp_trace) >= 2 or any(t.startswith('p') for t in exp_trace)}
-    res['sample'] = {'outline': shape, 'preds': preds, 'rets': _jsonable(rets), 'calls': got_trace, 'result': _jsonable(result), 'ended_by': how}
+    res['sample'] = {'outline': shape, 'preds': preds, 'rets': _jsonable(rets), 'steps_register_awaitables': awaits, 'calls': got_trace, 'result': _jsonable(result), 'ended_by': how}
     return res
 
 
